@@ -43,7 +43,10 @@ EXTRA = ["join_name", "join_expr", "crossJoin", "union", "unionByName", "interse
          "dropna", "replace", "unpivot", "toDF", "cube", "na_fill", "dropDuplicates", "select_star", "select_none",
          "withColumns", "cache", "transform", "createOrReplaceTempView", "sort", "filter_str", "selectExpr_like", "getattr", "alias_use",
          # schema-agnostic forms of the single-input transformations, usable on any receiver (also results outside the Lean alphabet)
-         "x_limit_big", "x_limit2", "x_distinct", "x_orderBy", "x_where", "x_select1", "x_withColumn", "x_drop_last", "x_rename", "x_copy"]
+         "x_limit_big", "x_limit2", "x_distinct", "x_orderBy", "x_where", "x_select1", "x_withColumn", "x_drop_last", "x_rename", "x_copy",
+         # naming follow-ups whose new spelling differs from an existing column's only in letter case: the display-name map gets an entry
+         # under that column's own key, so an entry recorded on the wrong object shows in what that object reports
+         "case_rename", "case_select", "case_alias", "case_toDF", "case_withColumn", "case_withColumns"]
 # (method, hint name, parameter): partition hints go into the block's hint clause, join hints wait for a join
 HINTS = [("repartition", "REPARTITION", 3), ("coalesce", "COALESCE", 1), ("hint", "REBALANCE", None), ("hint", "BROADCAST", None), ("repartition", "REPARTITION", 2)]
 JOIN_HINT_NAMES = {"BROADCAST", "BROADCASTJOIN", "MAPJOIN", "MERGE", "SHUFFLEMERGE", "MERGEJOIN", "SHUFFLE_HASH", "SHUFFLE_REPLICATE_NL"}
@@ -462,6 +465,18 @@ def do_extra(df, other, which: str, F):
         return df.withColumnRenamed(c0, "RENAMED")
     if which == "x_copy":
         return df.copy()
+    if which == "case_rename":
+        return df.withColumnRenamed(c0, c0.swapcase())
+    if which == "case_select":
+        return df.select(F.col(c0.swapcase()), *[F.col(c) for c in cols[1:]])
+    if which == "case_alias":
+        return df.select(*[F.col(c).alias(c.swapcase()) for c in cols])
+    if which == "case_toDF":
+        return df.toDF(*[c.swapcase() for c in cols])
+    if which == "case_withColumn":
+        return df.withColumn(c0.swapcase(), F.col(c0))
+    if which == "case_withColumns":
+        return df.withColumns({c0.swapcase(): F.col(c0)})
     raise ValueError(which)
 
 
@@ -1092,7 +1107,8 @@ def makers(rng: random.Random, thorough: bool = True) -> t.List[t.Tuple[str, t.L
 
 
 CORE_ACTIONS = ("collect", "count", "show1", "head_default", "isEmpty", "toPandas", "columns", "sql", "schema")
-CORE_EXTRA = ("join_name", "union", "groupBy_agg", "x_limit2", "x_copy", "cache", "select_none", "transform")
+CORE_EXTRA = ("join_name", "union", "groupBy_agg", "x_limit2", "x_copy", "cache", "select_none", "transform",
+              "case_rename", "case_select", "case_alias", "case_toDF", "case_withColumn", "case_withColumns")
 
 
 def follow_ups(rng: random.Random, recv: int, schema: dict, state: dict, rx: t.Optional[int]) -> t.List[t.Tuple[dict, bool]]:
@@ -1107,6 +1123,9 @@ def follow_ups(rng: random.Random, recv: int, schema: dict, state: dict, rx: t.O
                     fus.append((ev, j == 0))
         if state.get("total"):
             fus += [(tr(recv, {"k": "limit", "n": n}), True) for n in (1, 2, 7)]
+        # a rename that changes only the letter case (model-level: the display-name decision is Gen.Purity.display_withColumnRenamed)
+        c = next(iter(schema))
+        fus.append((tr(recv, {"k": "withColumnRenamed", "a": c, "b": c, "spell": c.swapcase()}, "withColumnRenamed", [[c, c.swapcase()]]), True))
     for i, (m, name, n) in enumerate(HINTS):
         fus.append(({"op": "hint", "r": recv, "m": m, "name": name, "n": n, "rx": rx}, i < 4))
     fus.append(({"op": "alias", "r": recv, "name": "t1", "rx": rx}, True))
